@@ -2,7 +2,7 @@
    good_range fname lc r: r names the file, both ends are positions of the scanner table lc of the
    file's content (so 0 <= byte <= len and line/column agree with the byte offset) and start <= end. *)
 From Coq Require Import String List ZArith Bool.
-From HV Require Import Base.Pos Model.Schema Model.Ast Model.Validate Proofs.ValidateProofs Proofs.RangeProofs.
+From HV Require Import Base.Pos Model.Schema Model.Ast Model.Validate Proofs.ValidateProofs Proofs.RangeProofs Model.Hover Model.BodyQueries Proofs.TokenPlaces Proofs.HoverRanges Proofs.EmittedRanges.
 
 (* the range algebra hcl-lang uses preserves good ranges *)
 Theorem C02_range_between_good : forall fname lc a b,
@@ -31,3 +31,19 @@ Theorem C02_diagnostic_subjects_good : forall fname lc b u s,
   Forall (fun d => good_range fname lc (d_subject d)) (walk_body u s b).
 Proof. exact diagnostic_subjects_good. Qed.
 Print Assumptions C02_diagnostic_subjects_good.
+
+(* the range of body-level hover data is a range of the syntax tree (an attribute, a type keyword or a label, at any
+   depth): good whenever the parser's ranges are *)
+Theorem C02_hover_range_good : forall fname lc p b bs c r,
+  Forall (good_range fname lc) (hover_item_ranges b) ->
+  hover_body p b bs = HHover c r -> good_range fname lc r.
+Proof. exact hover_range_good. Qed.
+Print Assumptions C02_hover_range_good.
+
+(* every body-level semantic token sits on a name, type keyword or label of the syntax tree, at any depth: good whenever
+   the parser's ranges are *)
+Theorem C02_token_ranges_good : forall fname lc b bs mods,
+  Forall (good_range fname lc) (places b) ->
+  Forall (fun t => good_range fname lc (st_rng t)) (tokens_body bs mods b).
+Proof. exact token_ranges_good. Qed.
+Print Assumptions C02_token_ranges_good.
